@@ -46,7 +46,7 @@ def ac_sig(w, v):
     if w.is_node(v):
         op = w.opname(v)
         if op == "SYMBOL":
-            return ("sym", _re.sub(r"FV\\d+", "FV#", str(w.npayload(v)[0])))
+            return ("sym", _re.sub(r"FV\d+", "FV#", str(w.npayload(v)[0])))
         kids = [ac_sig(w, a) for a in w.nargs(v)]
         if op in COMMUTATIVE:
             kids = sorted(kids, key=repr)
@@ -141,6 +141,8 @@ def _history_shapes():
     AV = ("Array", ("type", INT), ("lit", 0, INT), ("dict", (("lit", 1, INT), ("lit", 5, INT))))
     marr = S("marr", ("ARRAY", INT, INT))
     targets += [("And", ("LT", ("lit", 0, INT), x), ("Or", a, ("LT", ("Plus", y, ("lit", 1, INT)), z))),
+                ("And", ("forall", [("x", INT)], ("LT", y, x)), ("Or", ("LT", ("lit", 0, INT), z), b)),
+                ("Or", ("exists", [("a", BOOL)], ("And", a, b)), ("Not", ("forall", [("b", BOOL)], ("Or", b, c)))),
                 ("Equals", ("Store", AV, three_, ("lit", 30, INT)), marr),
                 ("Equals", ("Select", ("Store", AV, three_, ("lit", 30, INT)), ("lit", 2, INT)), x),
                 ("Equals", AV, marr)]
@@ -174,12 +176,14 @@ def _hist_job(job):
             return ("raise", ex.cls_name)
 
     def call_hist(w, it, f_):
-        for ht in history:
+        for hi, ht in enumerate(history):
             h = proc.build_shape(w, ht)
             for nm in ("serialize", "to_smtlib", "simplify", "substitute", "get_type", "free variables", "atoms", "size (depth)", "size",
                        "size (leaves)", "size (symbols)", "get_logic", "nnf", "aig"):
                 if w.nsort(h) != ("BOOL",) and nm in ("nnf", "aig", "atoms"):
                     continue
+                if nm == "get_logic" and hi % 4:
+                    continue          # (the search over the logic table is the costly part of the history)
                 try:
                     table[nm][0](w, it, h)
                 except AbsRaise:
@@ -202,6 +206,13 @@ def _hist_job(job):
         for i in range(12):
             w.app("Or", w.symbol("u%d" % i, ("BOOL",)), w.symbol("a", ("BOOL",)))
         f = proc.build_shape(w, shape.t)
+        # every service is asked once about the target itself before the answers are taken: a service must not
+        # change what another one answers about the same formula
+        for nm in sorted(table):
+            try:
+                table[nm][0](w, it, f)
+            except AbsRaise:
+                pass
         out = {}
         for svc in svcs:
             fn = table[svc][0]
@@ -216,32 +227,39 @@ def _hist_job(job):
     results = []
     if len(ph) != 1 or ph[0].kind != "valid":
         why = "%s %s" % (ph[0].kind, str(ph[0].detail)[:200])
-        return [(svc, repr(shape), "unsupported", why) for svc in svcs]
-    hist = ph[0].detail
+        return ("unsupported", why)
+    return ("ok", ph[0].detail)
+
+
+def _fresh_job(job):
+    """One target, a few services, each in a fresh environment of its own."""
+    ti, svcs = job
+    targets, _h = _history_shapes()
+    shape = Shape(targets[ti])
+    dummy = Shape(("lit", True, BOOL))
+    table = _services()
+    out = {}
     for svc in svcs:
-        fn, fresh_syms = table[svc]
+        fn = table[svc][0]
 
         def call_fresh(w, it, f_, fn=fn):
-            r = apply(fn, w, it, proc.build_shape(w, shape.t))
+            try:
+                r = ("ret", fn(w, it, proc.build_shape(w, shape.t)))
+            except AbsRaise as ex:
+                r = ("raise", ex.cls_name)
             return (r[0], ac_sig(w, r[1]) if r[0] == "ret" else r[1])
         pf = proc.run_proc(dummy, call_fresh, post=lambda w, f, v, facts: proc.ProcResult(shape, "valid", v), services="full", max_paths=8,
                            world_cls=TypedWorld)
         if len(pf) != 1 or pf[0].kind != "valid":
-            results.append((svc, repr(shape), "unsupported", "%s %s" % (pf[0].kind, str(pf[0].detail)[:200])))
-            continue
-        a_, b_ = pf[0].detail, hist[svc]
-        if a_[0] != b_[0]:
-            results.append((svc, repr(shape), "invalid", "fresh environment: %s; after other work: %s" % (a_[0], b_[0])))
-        elif a_[0] == "raise":
-            results.append((svc, repr(shape), "valid" if a_[1] == b_[1] else "invalid", "raises %s / %s" % (a_[1], b_[1])))
-        elif a_[1] != b_[1]:
-            results.append((svc, repr(shape), "invalid", "the result differs from the one in a fresh environment: %s vs %s"
-                            % (str(b_[1])[:160], str(a_[1])[:160])))
-        elif not fresh_syms and not b_[2]:
-            results.append((svc, repr(shape), "invalid", "repeating the call returns a different object"))
+            out[svc] = ("unsupported", "%s %s" % (pf[0].kind, str(pf[0].detail)[:200]))
         else:
-            results.append((svc, repr(shape), "valid", "same as in a fresh environment; repeatable"))
-    return results
+            out[svc] = ("ok", pf[0].detail)
+    return out
+
+
+def _hist_or_fresh(job):
+    kind, j = job
+    return _hist_job(j) if kind == "hist" else _fresh_job(j)
 
 
 def run_history(ctx):
@@ -250,9 +268,35 @@ def run_history(ctx):
     rs = ctx.rule("R7", "services of an environment answer as in a fresh environment after other formulas were built, queried and transformed")
     targets, _h = _history_shapes()
     names = sorted(_services())
-    groups = [names[0::3], names[1::3], names[2::3]]
-    jobs = [(ti, g) for ti in range(len(targets)) for g in groups]
-    flat = [r for rs_ in parallel_map(_hist_job, jobs) for r in rs_]
+    table = _services()
+    hist_jobs = [(ti, names) for ti in range(len(targets))]
+    fresh_jobs = [(ti, names[k::4]) for ti in range(len(targets)) for k in range(4)]
+    res = parallel_map(_hist_or_fresh, [("hist", j) for j in hist_jobs] + [("fresh", j) for j in fresh_jobs])
+    hist = dict((j[0], r) for j, r in zip(hist_jobs, res[:len(hist_jobs)]))
+    fresh = {}
+    for j, r in zip(fresh_jobs, res[len(hist_jobs):]):
+        fresh.setdefault(j[0], {}).update(r)
+    flat = []
+    for ti in range(len(targets)):
+        shape = repr(Shape(targets[ti]))
+        hk, hv = hist[ti]
+        for svc in names:
+            fk, fv = fresh[ti][svc]
+            if hk != "ok" or fk != "ok":
+                flat.append((svc, shape, "unsupported", str(hv if hk != "ok" else fv)))
+                continue
+            a_, b_ = fv, hv[svc]
+            if a_[0] != b_[0]:
+                flat.append((svc, shape, "invalid", "fresh environment: %s; after other work: %s" % (a_[0], b_[0])))
+            elif a_[0] == "raise":
+                flat.append((svc, shape, "valid" if a_[1] == b_[1] else "invalid", "raises %s / %s" % (a_[1], b_[1])))
+            elif a_[1] != b_[1]:
+                flat.append((svc, shape, "invalid", "the result differs from the one in a fresh environment: %s vs %s"
+                             % (str(b_[1])[:160], str(a_[1])[:160])))
+            elif not table[svc][1] and not b_[2]:
+                flat.append((svc, shape, "invalid", "repeating the call returns a different object"))
+            else:
+                flat.append((svc, shape, "valid", "same as in a fresh environment; repeatable"))
     for svc, shape, kind, detail in flat:
         if kind == "valid":
             rs.ok({"service": svc, "skeleton": shape, "result": detail})
